@@ -143,6 +143,7 @@ type kase struct {
 	fns       []interface{} // the mocked functions (entry bytes are snapshotted; stack check detected from the code)
 	prepare   func()        // runs before the reference result is taken
 	recursive bool
+	extra     func() string // additional canonical facts appended to the observation
 	expect        int // callback runs per call (recursive functions re-enter the mock on purpose); 0 means 1
 	hasStackCheck bool
 	// install mocks with origin; returns call (canonical result string), reset
@@ -573,6 +574,10 @@ func child(name string, maxDepth, step int) string {
 		return fmt.Sprintf("%s clean=%v", refused, clean)
 	}
 	_ = before
+	extraFacts := ""
+	if k.extra != nil {
+		extraFacts = " " + k.extra()
+	}
 	calls, wrong, twice, zero, first := 0, 0, 0, 0, "-"
 	firstWrong := ""
 	over := 0
@@ -634,7 +639,7 @@ func child(name string, maxDepth, step int) string {
 		restored = false
 	}
 	_ = cntAfter
-	return fmt.Sprintf("applied calls=%d wrong=%d cbtwice=%d cbzero=%d first=%s restored=%v stack=%v over=%d%s", calls, wrong, twice, zero, first, restored, stack, over, strings.ReplaceAll(firstWrong, ";", ","))
+	return fmt.Sprintf("applied calls=%d wrong=%d cbtwice=%d cbzero=%d first=%s restored=%v stack=%v over=%d%s%s", calls, wrong, twice, zero, first, restored, stack, over, extraFacts, strings.ReplaceAll(firstWrong, ";", ","))
 }
 
 // TestVerifC03Exec is parent and child.
